@@ -2,7 +2,7 @@
    expected_improvement.py, probabilistic_failures.py, multitask_acquisition_function.py, sigopt_parzen_estimator.py). *)
 From Coq Require Import Reals Lra.
 From Coquelicot Require Import Coquelicot.
-From LV Require Import Lib.RBase Gen.GenAcq Proofs.Acq.
+From LV Require Import Lib.RBase Gen.GenAcq Proofs.Acq Proofs.ParzenGrad.
 Open Scope R_scope.
 
 (* expected improvement: for differentiable posterior mean mu(t) and variance v(t) > 0 along a coordinate, where the
@@ -83,3 +83,14 @@ Theorem C04_parzen_ratio (l g dl dg : R -> R) gamma t :
             (- (1 / (gamma + g t / l t * (1 - gamma))) ^ 2 * (1 - gamma) * (l t * dg t - g t * dl t) / l t ^ 2).
 Proof. exact (ratio_grad_is_derivative l g dl dg gamma t). Qed.
 Print Assumptions C04_parzen_ratio.
+
+(* the same statement on the generated value/gradient pair of the estimator: densities are kernel means over the lower and
+   greater sets (the lower one floored by 1e-10), kernel entries differentiable along the coordinate *)
+Theorem C04_parzen_grad_generated dim ng nl x (kl kg : nat -> R -> R) (dkl dkg : nat -> R) Gl0 Gg0 gamma t i k :
+  (0 < nl)%nat -> (0 < ng)%nat -> 0 < gamma < 1 ->
+  (forall j, (j < nl)%nat -> is_derive (kl j) t (dkl j)) -> (forall j, (j < ng)%nat -> is_derive (kg j) t (dkg j)) ->
+  (forall j, 0 <= kl j t) -> (forall j, 0 <= kg j t) ->
+  is_derive (fun t => Parzen.ei_ratio dim ng nl x (fun _ j => kl j t) Gl0 (fun _ j => kg j t) Gg0 gamma i) t
+            (Parzen.grad_ei dim ng nl x (fun _ j => kl j t) (fun _ j _ => dkl j) (fun _ j => kg j t) (fun _ j _ => dkg j) gamma i k).
+Proof. exact (parzen_grad_is_derivative dim ng nl x kl kg dkl dkg Gl0 Gg0 gamma t i k). Qed.
+Print Assumptions C04_parzen_grad_generated.
